@@ -22,14 +22,15 @@ type c11Case struct {
 	P      []ref.F     `json:"p"`
 	Layout geom.Layout `json:"layout"`
 	// Tags: 0 = extra ordinates are NaN everywhere; 1 = every vertex carries its own finite
-	// extras and the query point different ones
+	// extras and the query point different ones; 2 = the vertices' extras repeat coordinates of the
+	// next vertex
 	Tags int `json:"tags,omitempty"`
 }
 
 func init() {
 	engine.Register(&engine.Check{
 		ID: "C11", Level: "exploration",
-		Rule:        "every closed ring of 3 and 4 vertices on the 4x4 grid and of 5 vertices on the 3x3 grid (thorough: also 5 vertices on the 4x4 grid) - simple, self-intersecting, degenerate, with repeated vertices and horizontal edges, every direction and start vertex - with vertices on even coordinates x every query point of the doubled grid (edge midpoints, points level with vertices); translated copies at 2^26 and layouts XYZ/XYZM with NaN extras; the vertex lattice queried again in XYZ/XYM/XYZM with extra ordinates that differ between query point and vertices; a split-ratio sweep (triangles with a slanted edge through the origin divided a:b for all a,b <= 24 in 10 directions, every start vertex and direction, queried at the origin and its neighbours); LocatePointInRing/IsPointInRing vs the exact even-odd rule evaluated with a vertical ray; IsOnLine/PointIntersectsLine for every segment and 3-vertex polyline x every point of the 5x5 grid plus +-1 ulp perturbations of exactly-on-segment configurations; plus lean sweeps of ~7*10^6 point-on-segment queries over near-collinear float triples (the float-line lattice, mixed-magnitude collinear triples with one- and two-ulp perturbations, segments through the coordinate origin; each point of a triple against the segment of the other two). distinct_nontrivial = distinct (ring, point) pairs with a ring of non-zero area or a boundary hit",
+		Rule:        "every closed ring of 3 and 4 vertices on the 4x4 grid and of 5 vertices on the 3x3 grid (thorough: also 5 vertices on the 4x4 grid) - simple, self-intersecting, degenerate, with repeated vertices and horizontal edges, every direction and start vertex - with vertices on even coordinates x every query point of the doubled grid (edge midpoints, points level with vertices); translated copies at 2^26 and layouts XYZ/XYZM with NaN extras; the vertex lattice queried again in XYZ/XYM/XYZM with extra ordinates that differ between query point and vertices (own tags, or the next vertex's coordinates repeated as Z/M); a split-ratio sweep (triangles with a slanted edge through the origin divided a:b for all a,b <= 24 in 10 directions, every start vertex and direction, queried at the origin and its neighbours); LocatePointInRing/IsPointInRing vs the exact even-odd rule evaluated with a vertical ray; IsOnLine/PointIntersectsLine for every segment and 3-vertex polyline x every point of the 5x5 grid plus +-1 ulp perturbations of exactly-on-segment configurations; plus lean sweeps of ~7*10^6 point-on-segment queries over near-collinear float triples (the float-line lattice, mixed-magnitude collinear triples with one- and two-ulp perturbations, segments through the coordinate origin; each point of a triple against the segment of the other two). distinct_nontrivial = distinct (ring, point) pairs with a ring of non-zero area or a boundary hit",
 		Run:         c11Run,
 		Replay:      func(c *engine.Ctx, kind string, raw json.RawMessage) { c11Exec(c, decodeCase[c11Case](raw)) },
 		Assumptions: []string{"ordinates on an integer grid up to 2^26 (differences exact) for rings; moderate floats for point-on-line"},
@@ -68,6 +69,16 @@ func c11Exec(c *engine.Ctx, cs c11Case) {
 		for i := 0; i < len(flat); i += st {
 			for k := 2; k < st; k++ {
 				flat[i+k] = float64(1000 + i + k)
+				if cs.Tags == 2 {
+					// extra ordinates drawn from the coordinates themselves: Z (or M in XYM) = the
+					// next vertex's Y, in XYZM Z = next X and M = next Y - a value read one slot
+					// off then LOOKS like a coordinate
+					nx := (i + st) % len(flat)
+					flat[i+k] = flat[nx+1]
+					if st == 4 && k == 2 {
+						flat[i+k] = flat[nx]
+					}
+				}
 			}
 		}
 		// the closing vertex repeats the first one in every ordinate
@@ -226,7 +237,7 @@ func c11Run(c *engine.Ctx) {
 				if x%2 == 0 && y%2 == 0 {
 					// the vertex lattice again in layouts whose extra ordinates differ between the
 					// query point and the vertices
-					l, tags := geom.XYZ, 1
+					l, tags := geom.XYZ, 1+(x/2+y/2+len(j.verts))%2
 					if (x/2+len(j.verts))%2 == 0 {
 						l = geom.XYZM
 					}
